@@ -474,9 +474,12 @@ Section Proofs.
       destruct (sample_parts 0 seed p2); [|discriminate]. apply Permutation_refl.
     - destruct (sample_parts_sub k seed p1) as [d1 H1]. destruct (sample_parts_sub k seed p2) as [d2 H2].
       pose proof (sample_parts_size k seed p1) as L1. pose proof (sample_parts_size k seed p2) as L2.
-      eapply Permutation_trans.
-      + apply (full_sample_perm _ d1 _ H1). lia.
-      + rewrite Hc. apply Permutation_sym. apply (full_sample_perm _ d2 _ H2). rewrite <- Hc. lia.
+      assert (Hk2 : length (concat p2) <= k) by (rewrite <- Hc; exact Hk).
+      assert (P1 : Permutation (sample_parts k seed p1) (concat p1))
+        by (apply (full_sample_perm _ d1 _ H1); lia).
+      assert (P2 : Permutation (sample_parts k seed p2) (concat p2))
+        by (apply (full_sample_perm _ d2 _ H2); lia).
+      rewrite Hc in P1. eapply Permutation_trans; [exact P1|apply Permutation_sym, P2].
     - subst. apply Permutation_refl.
   Qed.
 End Proofs.
